@@ -1,0 +1,148 @@
+//go:build verif
+// +build verif
+
+package rockredis
+
+// Exports for the verification harness in /verif (data-model checks C08, C09, C10).
+// Add-only, compiled only with -tags verif.  Nothing here is used by the product.
+
+import (
+	"errors"
+
+	"github.com/youzan/ZanRedisDB/engine"
+)
+
+// VerifDBAllPairs returns a copy of every stored key/value pair in engine order.
+func (db *RockDB) VerifDBAllPairs() (keys [][]byte, vals [][]byte, err error) {
+	it, err := engine.NewDBRangeIteratorWithOpts(db.rockEng, engine.IteratorOpts{})
+	if err != nil {
+		return nil, nil, err
+	}
+	defer it.Close()
+	for ; it.Valid(); it.Next() {
+		keys = append(keys, append([]byte{}, it.RefKey()...))
+		vals = append(vals, append([]byte{}, it.RefValue()...))
+	}
+	return keys, vals, nil
+}
+
+// VerifDBWipe deletes every stored pair through the engine (a cheap CleanData that keeps
+// the engine open) and returns the number of pairs removed.
+func (db *RockDB) VerifDBWipe() (int, error) {
+	keys, _, err := db.VerifDBAllPairs()
+	if err != nil {
+		return 0, err
+	}
+	wb := db.rockEng.NewWriteBatch()
+	defer wb.Destroy()
+	for _, k := range keys {
+		wb.Delete(k)
+	}
+	if err := db.rockEng.Write(wb); err != nil {
+		return 0, err
+	}
+	if db.hllCache != nil {
+		// drop cached hll entries of deleted keys
+		if hc, err := newHLLCache(HLLReadCacheSize, HLLWriteCacheSize, db); err == nil {
+			db.hllCache = hc
+		}
+	}
+	return len(keys), nil
+}
+
+// VerifDBHasCompactFilter tells whether the store registered the lazy-expiry compaction filter.
+func (db *RockDB) VerifDBHasCompactFilter() bool { return db.compactFilter != nil }
+
+// VerifDBCompactDecision is the compaction filter's decision for one stored pair, with the
+// filter's (cached) clock set to nowSec.  true = the pair would be dropped by a compaction.
+func (db *RockDB) VerifDBCompactDecision(key, value []byte, nowSec int64) bool {
+	cf := db.compactFilter
+	if cf == nil {
+		return false
+	}
+	cf.cachedTimeSec = nowSec
+	cf.checkedCnt = 0
+	drop, _ := cf.Filter(0, key, value)
+	return drop
+}
+
+// VerifDBSimCompact applies the compaction filter's decision (clock = nowSec) to every
+// stored pair and deletes the pairs it would drop, as one full compaction would.
+func (db *RockDB) VerifDBSimCompact(nowSec int64) (dropped [][]byte, err error) {
+	if db.compactFilter == nil {
+		return nil, nil
+	}
+	keys, vals, err := db.VerifDBAllPairs()
+	if err != nil {
+		return nil, err
+	}
+	wb := db.rockEng.NewWriteBatch()
+	defer wb.Destroy()
+	for i, k := range keys {
+		if db.VerifDBCompactDecision(k, vals[i], nowSec) {
+			wb.Delete(k)
+			dropped = append(dropped, k)
+		}
+	}
+	if len(dropped) == 0 {
+		return nil, nil
+	}
+	return dropped, db.rockEng.Write(wb)
+}
+
+// VerifDBSetLocalExpCheckInterval changes the period (seconds) of the background
+// local-deletion scanner for stores opened afterwards; returns the old value.
+func VerifDBSetLocalExpCheckInterval(sec int) int {
+	old := localExpCheckInterval
+	localExpCheckInterval = sec
+	return old
+}
+
+// VerifDBLocalExpireScan runs one complete pass of the local-deletion expiry scanner
+// (what the background goroutine does on every tick) synchronously.
+func (db *RockDB) VerifDBLocalExpireScan() error {
+	le, ok := db.expiration.(*localExpiration)
+	if !ok {
+		return errors.New("not the local deletion policy")
+	}
+	buf := newLocalBatchedBuffer(db, localBatchedBufSize)
+	defer buf.Destroy()
+	stop := make(chan struct{})
+	for {
+		le.TTLChecker.setNextCheckTime(0, true)
+		err := le.TTLChecker.check(buf, stop)
+		buf.commit()
+		if err == ErrLocalBatchedBuffFull {
+			continue
+		}
+		if err == errTTLCheckTooLong {
+			err = nil
+		}
+		return err
+	}
+}
+
+// VerifDBRawMeta reads the stored header of a kv value or of a collection's meta record:
+// whether a record exists, its stored expiry second (0 = none) and its value version.
+// dt is one of KVType, HashType, ListType, SetType, ZSetType.
+func (db *RockDB) VerifDBRawMeta(dt byte, key []byte) (exists bool, expireAt int64, ver int64, err error) {
+	mk, err := encodeMetaKey(dt, key)
+	if err != nil {
+		return false, 0, 0, err
+	}
+	v, err := db.GetBytes(mk)
+	if err != nil || v == nil {
+		return false, 0, 0, err
+	}
+	if _, ok := db.expiration.(*compactExpiration); !ok {
+		return true, 0, 0, nil
+	}
+	var h headerMetaValue
+	if dt == KVType && len(v) >= tsLen {
+		v = v[:len(v)-tsLen]
+	}
+	if _, err := h.decode(v); err != nil {
+		return true, 0, 0, err
+	}
+	return true, int64(h.ExpireAt), h.ValueVersion, nil
+}
